@@ -2190,7 +2190,7 @@ def run(ctx):
         'after every generated history; SetPen/Clobber are exercised with arrays of the current penalty shape only',
     ]
     ctx.gate()
-    ctx.translate(['GenBands', 'GenBandPurity', 'GenBandEffects', 'GenBandEffects2D', 'GenPenaltySites'])
+    ctx.translate(['GenBands', 'GenBandPurity', 'GenBandEffects', 'GenBandEffects2D', 'GenPenaltySites', 'GenBandEvents2D'])
     ok = ctx.build_props()
     correspondence(ctx)
     pspline_correspondence(ctx)
